@@ -35,6 +35,18 @@ fn dup_logical(rng: &mut Rng, i: u64, codec: u8) -> Logical {
         p.push(Rc::new(longer));
         p
     };
+    if i % 24 == 13 {
+        // one very long run whose length sits on a power-of-two / integer-width boundary
+        let n = [255u64, 256, 257, 65_535, 65_536, 65_537, 70_000, 131_073][((i / 24) % 8) as usize];
+        l.tiles.clear();
+        let start = rng.below(1 << 30);
+        for k in 0..n {
+            l.tiles.insert(start + k, pool[0].clone());
+        }
+        l.tiles.insert(start + n, pool[1 % pool.len()].clone());
+        l.class = format!("long-run-{n}");
+        return l;
+    }
     match i % 6 {
         0 => {
             // a dense block of adjacent ids: runs A A A B B A A ... (run boundaries everywhere)
@@ -184,7 +196,8 @@ pub fn run(ctx: &mut Ctx) {
                 }
                 check_store(&arch.report(), model).map_err(|e| format!("builder: {e}"))
             };
-            let every = (ids.len() / 40).max(1);
+            // the store report walks every id: keep the number of quiescent-point checks bounded for huge archives
+            let every = if ids.len() > 20_000 { ids.len() / 3 } else { (ids.len() / 40).max(1) };
             match hist {
                 0 => add_all(&mut arch, &mut model, &ids, every)?,
                 1 => {
